@@ -60,6 +60,10 @@ impl Window {
             return None;
         };
 
+        // Las jambas están en planos verticales perpendiculares al opaco: en opacos no verticales
+        // (lucernarios, etc) su polígono se gira en ese plano según la inclinación del opaco
+        let (sin_t, cos_t) = wallgeom.tilt.to_radians().sin_cos();
+
         let overhang = Shade {
             id: uuid_from_str(&format!("{}-top_setback", self.id)),
             name: format!("{}_top_setback", self.name),
@@ -81,14 +85,17 @@ impl Window {
             id: uuid_from_str(&format!("{}-left_setback", self.id)),
             name: format!("{}_left_setback", self.name),
             geometry: WallGeom {
-                tilt: wallgeom.tilt,
+                tilt: 90.0,
                 azimuth: wallgeom.azimuth + 90.0,
                 position: Some(wall2world * point![wpos.x, wpos.y + wing.height, 0.0]),
                 polygon: vec![
                     point![0.0, 0.0],
-                    point![0.0, -wing.height],
-                    point![wing.setback, -wing.height],
-                    point![wing.setback, 0.0],
+                    point![-wing.height * cos_t, -wing.height * sin_t],
+                    point![
+                        wing.setback * sin_t - wing.height * cos_t,
+                        -wing.setback * cos_t - wing.height * sin_t
+                    ],
+                    point![wing.setback * sin_t, -wing.setback * cos_t],
                 ],
             },
         };
@@ -97,14 +104,17 @@ impl Window {
             id: uuid_from_str(&format!("{}-right_setback", self.id)),
             name: format!("{}_right_setback", self.name),
             geometry: WallGeom {
-                tilt: wallgeom.tilt,
+                tilt: 90.0,
                 azimuth: wallgeom.azimuth - 90.0,
                 position: Some(wall2world * point![wpos.x + wing.width, wpos.y + wing.height, 0.0]),
                 polygon: vec![
                     point![0.0, 0.0],
-                    point![-wing.setback, 0.0],
-                    point![-wing.setback, -wing.height],
-                    point![0.0, -wing.height],
+                    point![-wing.setback * sin_t, -wing.setback * cos_t],
+                    point![
+                        -wing.setback * sin_t + wing.height * cos_t,
+                        -wing.setback * cos_t - wing.height * sin_t
+                    ],
+                    point![wing.height * cos_t, -wing.height * sin_t],
                 ],
             },
         };
